@@ -27,6 +27,7 @@ RULE = ("gauleg(a,b,n): n in 1..200 (all of them on [-1,1] enumerated in both ti
         "changing/None npts. Non-trivial: n>=2 on a non-unit interval (rule/exact/func/data), nx!=ny or a "
         "non-unit rectangle (gauss2d), a history with >=2 different npts. Distinct = distinct case JSON."
         " Tabulated data: abscissa scales 1e-12..1e12, integer-typed abscissae, strided / record-field / byte-swapped arrays.")
+RULE += (" " + 'Also: integrands returning a fresh array, the array they keep (memoising, called twice), or an integer/boolean array; intervals of width exactly 2 and 1 away from the origin; QGauss2: one or two further calls on the same object over other rectangles.')
 ASSUMPTIONS = [
     "intervals are finite with |b-a| >= 1e-9*max(|a|,|b|) (1e-5 for n>200): below that float64 cannot "
     "hold n distinct interior nodes, so 'strictly inside/ascending' cannot be meant",
